@@ -81,6 +81,103 @@ def good_value(v):
 
 
 # ----------------------------------------------------------------------------------------------
+# storage of the starting point / the proposal scales (wave 2): the property quantifies over
+# starting points; the chain must not depend on HOW the caller stores the numbers
+# ----------------------------------------------------------------------------------------------
+
+INT_KINDS = {'i64': np.int64, 'i32': np.int32, 'i16': np.int16, 'i8': np.int8, 'u8': np.uint8, 'u16': np.uint16,
+             'u32': np.uint32, 'bool': np.bool_}
+FLT_KINDS = {'f64': np.float64, 'f32': np.float32, 'f16': np.float16, 'f64be': '>f8', 'f32be': '>f4'}
+SEQ_KINDS = ('list', 'tuple', 'ilist', 'ituple')          # Python sequences of floats / of ints
+SCALAR_KINDS = ('0d', '0di', 'pyscalar')                   # 0-d arrays (float / int) and a bare Python float
+# the documented signature is `params0 : np.array` and the code reads `params0.shape` and indexes
+# `samples[0, :]`: sequences and 0-d values are outside the entry point's domain.  They are explored
+# anyway: IF the entry point takes them the chain must be the model's chain; an AttributeError /
+# IndexError / TypeError on them is the entry point refusing the container, not a finding.
+OUT_OF_DOMAIN = SEQ_KINDS + SCALAR_KINDS
+INTLIKE = tuple(INT_KINDS) + ('ilist', 'ituple', '0di')
+LAYOUTS_1D = ('plain', 'strided', 'negstride', 'readonly')
+LAYOUTS_MET = LAYOUTS_1D + ('row2d', 'col2d')
+
+
+def quantise(values, kind):
+    """the numbers of `values` as they can be stored in `kind` (Python ints for integer storage, floats otherwise)"""
+    out = []
+    for v in values:
+        if kind in INTLIKE:
+            z = int(round(v))
+            if kind == 'bool':
+                z = 1 if z else 0
+            elif kind in INT_KINDS and kind.startswith('u'):
+                z = abs(z)
+            if kind == 'i8':
+                z = max(-128, min(127, z))
+            out.append(z)
+        elif kind in ('f32', 'f32be'):
+            out.append(float(np.float32(v)))
+        elif kind == 'f16':
+            out.append(float(np.float16(v)))
+        else:
+            out.append(float(v))
+    return out
+
+
+def build_start(values, kind, layout):
+    """the object handed to the sampler as params0"""
+    if kind in SEQ_KINDS:
+        return list(values) if kind in ('list', 'ilist') else tuple(values)
+    if kind == 'pyscalar':
+        return float(values[0])
+    if kind == '0d':
+        return np.array(float(values[0]))
+    if kind == '0di':
+        return np.array(int(values[0]))
+    dt = INT_KINDS.get(kind) or FLT_KINDS[kind]
+    a = np.array(values, dtype=dt)
+    if layout == 'strided':
+        big = np.full(2 * len(values) + 1, 7, dtype=dt)
+        big[1::2] = a
+        a = big[1::2]
+    elif layout == 'negstride':
+        a = np.array(list(values)[::-1], dtype=dt)[::-1]
+    elif layout == 'readonly':
+        a.setflags(write=False)
+    elif layout == 'row2d':
+        a = a.reshape(1, -1)
+    elif layout == 'col2d':
+        a = a.reshape(-1, 1)
+    return a
+
+
+def build_sigma(sigma, kind, shape):
+    """the object handed to the sampler as sigma_proposals (scalar or per-dimension)"""
+    if not isinstance(sigma, list):
+        if kind == 'f32':
+            return np.float32(sigma)
+        if kind in ('i64', 'i32'):
+            return INT_KINDS[kind](sigma)
+        if kind in ('pyint', 'ilist'):
+            return int(sigma)
+        return float(sigma)
+    if kind in ('list', 'ilist'):
+        return list(sigma)
+    dt = {'f64': np.float64, 'f32': np.float32, 'i64': np.int64, 'i32': np.int32, 'pyint': np.int64}[kind]
+    a = np.array(sigma, dtype=dt)
+    if len(shape) == 2:
+        a = a.reshape(shape)
+    return a
+
+
+def cnum(v):
+    return 'NI %s' % cz(v) if isinstance(v, int) and not isinstance(v, bool) else 'NF %s' % cfloat(v)
+
+
+def snapshot(o):
+    a = np.array(o, copy=True)
+    return (str(a.dtype), a.shape, a.tobytes())
+
+
+# ----------------------------------------------------------------------------------------------
 # recording
 # ----------------------------------------------------------------------------------------------
 
@@ -188,15 +285,20 @@ TKINDS_NUTS = ['gauss', 'gauss', 'box', 'box', 'nanzone', 'posinf', 'mixed']
 
 class C09(PropCheck):
     pid = 'C09'
-    header = ('From Coq Require Import List NArith Bool PrimFloat.\n'
+    header = ('From Coq Require Import List NArith ZArith Bool PrimFloat.\n'
               'From Elfi Require Import Base.Harness Num.Mcmc Num.Nuts.\nImport ListNotations.\n')
     case_type = 'Nuts.c09case'
     preds = (('Nuts.agree', 'agree'), ('Nuts.ok', 'ok'))
     chunk = 40
-    rule = ('metropolis: targets gauss/box(-inf outside)/flatbox/nanzone/posinf/steps/mixed, dims 1-3 (1-D and (1,d) arrays), '
-            'scalar or vector sigma, n_samples 0-14, warmup 0-6, real RandomState(seed) streams and scripted streams with '
+    rule = ('metropolis: targets gauss/box(-inf outside)/flatbox/nanzone/posinf/steps/mixed, dims 1-3, starting point stored as '
+            'float64/float32/float16/big-endian float, int64/int32/int16/int8/uint8/uint16/uint32/bool array (plain, strided view, '
+            'negative-stride view, read-only, (1,d), (d,1)), and - outside the documented domain, checked only if the entry point takes '
+            'them - Python list/tuple of floats or ints, 0-d arrays, bare float; scalar or per-dimension sigma stored as float64/float32/'
+            'int64/int32/Python int/list; n_samples 0-14, warmup 0-6 and the boundary values 0, 1, n_samples-1, n_samples, real '
+            'RandomState(seed) streams and scripted streams with '
             'uniforms on/next to the exp value (ties), valid / -inf / +inf / nan starts; non-trivial = chain with at least one '
-            'accepted and one rejected proposal.  nuts: 1-D arrays dims 1-3, n_iter 1-10, n_adapt None/0/n_iter-1/n_iter/random, '
+            'accepted and one rejected proposal.  nuts: 1-D arrays dims 1-3 in the same storage kinds (plain/strided/negative-stride/'
+            'read-only), n_iter 1-10, n_adapt None/0/1/n_iter-1/n_iter/random, '
             'max_depth 0-4, given or searched stepsize, same target kinds; non-trivial = run with an internal tree node that made '
             'both recursive calls and at least one accepted proposal; distinct by full case')
     trusted = ('the harness proxy for the name `np` inside elfi.methods.mcmc (recording RandomState subclass, recording exp); '
@@ -209,11 +311,29 @@ class C09(PropCheck):
         return dict(kind=kind, mu=[r.choice([0.0, 0.0, 0.5, -1.0]) for _ in range(d)],
                     scale=r.choice([0.5, 1.0, 1.0, 2.0]), a=r.choice([0.5, 1.0, 2.0]), b=r.choice([0.3, 1.0, 2.0]))
 
-    def _start(self, r, spec, d, how):
+    def _kind(self, r, layouts):
+        """storage of the starting point: (kind, layout)"""
+        u = r.random()
+        if u < 0.40:
+            kind = 'f64'
+        elif u < 0.62:
+            kind = r.choice(['i64', 'i64', 'i32', 'i32', 'i16', 'i8', 'u8', 'u16', 'u32', 'bool'])
+        elif u < 0.82:
+            kind = r.choice(['f32', 'f32', 'f32', 'f16', 'f64be', 'f32be'])
+        else:
+            kind = r.choice(OUT_OF_DOMAIN)
+        layout = 'plain' if kind in OUT_OF_DOMAIN else r.choice(('plain', 'plain') + tuple(layouts))
+        return kind, layout
+
+    def _start(self, r, spec, d, how, kind='f64'):
         f, _ = make_target(spec)
         for _ in range(200):
-            x = [r.choice([0.0, 0.1, -0.2, 0.4, r.uniform(-3, 3), r.uniform(-0.5, 0.5)]) for _ in range(d)]
-            v = f(np.array(x))
+            if kind in INTLIKE:
+                x = [r.choice([0, 0, 1, -1, 2, -2, 3, r.randint(-4, 4)]) for _ in range(d)]
+            else:
+                x = [r.choice([0.0, 0.1, -0.2, 0.4, r.uniform(-3, 3), r.uniform(-0.5, 0.5)]) for _ in range(d)]
+            x = quantise(x, kind)
+            v = f(np.array(x, dtype=float))
             if how == 'valid' and math.isfinite(v):
                 return x
             if how == 'neginf' and v == -math.inf:
@@ -222,52 +342,90 @@ class C09(PropCheck):
                 return x
             if how == 'nan' and math.isnan(v):
                 return x
-            if how in ('neginf', 'posinf', 'nan'):
-                x[0] = r.choice([-1, 1]) * r.uniform(2, 6)
+        if how in ('neginf', 'posinf', 'nan'):
+            for _ in range(200):
+                x = quantise([r.choice([-1, 1]) * r.uniform(2, 6)] + [r.uniform(-0.5, 0.5) for _ in range(d - 1)], kind)
+                v = f(np.array(x, dtype=float))
+                if (how == 'neginf' and v == -math.inf) or (how == 'posinf' and v == math.inf) or (how == 'nan' and math.isnan(v)):
+                    return x
         return None
+
+    def _sigma(self, r, d, layout):
+        """proposal scales: (sigma, sigma_kind); integer storage gets integer scales"""
+        kind = r.choice(['f64'] * 8 + ['f32', 'f32', 'i64', 'i64', 'i32', 'pyint', 'list', 'ilist'])
+        if kind in ('i64', 'i32', 'pyint', 'ilist'):
+            sc = r.choice([1, 1, 2, 3])
+            sigma = sc if r.random() < 0.3 else [r.choice([1, 1, 2, 3]) for _ in range(d)]
+        else:
+            sc = r.choice([0.1, 0.5, 1.0, 1.0, 3.0, 10.0])
+            sigma = sc if r.random() < 0.3 else [sc * r.choice([0.5, 1.0, 2.0]) for _ in range(d)]
+            if kind == 'f32':
+                sigma = quantise(sigma, 'f32') if isinstance(sigma, list) else quantise([sigma], 'f32')[0]
+        if kind in ('list', 'ilist') and layout == 'col2d' and isinstance(sigma, list):
+            kind = 'f64' if kind == 'list' else 'i64'      # a flat list does not broadcast against (d,1)
+        return sigma, kind
 
     def gen_met(self, r):
         d = r.choice([1, 1, 2, 2, 3])
+        kind, layout = self._kind(r, LAYOUTS_MET)
+        if kind in SCALAR_KINDS:
+            d = 1
         spec = self._target_spec(r, d, TKINDS_MET)
         how = r.choice(['valid'] * 12 + ['neginf', 'posinf', 'nan'])
-        x0 = self._start(r, spec, d, how)
+        x0 = self._start(r, spec, d, how, kind)
         if x0 is None:
             how = 'valid'
-            x0 = self._start(r, spec, d, how) or [0.0] * d
-        sc = r.choice([0.1, 0.5, 1.0, 1.0, 3.0, 10.0])
-        sigma = sc if r.random() < 0.3 else [sc * r.choice([0.5, 1.0, 2.0]) for _ in range(d)]
+            x0 = self._start(r, spec, d, how, kind) or quantise([0.0] * d, kind)
+        if kind == 'i64' and spec['kind'] == 'gauss' and r.random() < 0.1:
+            x0[0] = r.choice([2 ** 53 + 1, -(2 ** 53) - 1, 2 ** 40 + 1])     # int -> binary64 happens once, round to nearest even
+        sigma, skind = self._sigma(r, d, layout)
         rs = 'script' if (r.random() < 0.3 or (spec['kind'] in ('steps', 'flatbox') and r.random() < 0.6)) else 'seed'
-        case = dict(alg='metropolis', d=d, target=spec, x0=x0, sigma=sigma, n=r.choice([0, 1, 2, 3, 5, 8, 11, 14]),
-                    warmup=r.choice([0, 0, 1, 2, 3, 6]), seed=r.choice([0, 1, r.randrange(2 ** 32), r.randrange(1000)]),
-                    rs=rs, shape2d=(r.random() < 0.1), ret=r.choice(['float', 'np']))
+        n = r.choice([0, 1, 2, 3, 5, 8, 11, 14])
+        wsel = r.choice(['0', '0', '1', 'n-1', 'n', 'other', 'other', 'other'])
+        warmup = {'0': 0, '1': 1, 'n-1': max(n - 1, 0), 'n': n}.get(wsel)
+        if warmup is None:
+            warmup = r.choice([2, 3, 6])
+        case = dict(alg='metropolis', d=d, target=spec, x0=x0, x0_kind=kind, x0_layout=layout, sigma=sigma, sigma_kind=skind, n=n,
+                    warmup=warmup, seed=r.choice([0, 1, r.randrange(2 ** 32), r.randrange(1000)]),
+                    rs=rs, shape2d=(layout == 'row2d'), ret=r.choice(['float', 'np']))
         self.bump('met:target=' + spec['kind'])
         self.bump('met:start=' + how)
         self.bump('met:rs=' + rs)
         self.bump('met:d=%d' % d)
+        self.bump('met:x0_kind=' + kind)
+        self.bump('met:x0_layout=' + layout)
+        self.bump('met:sigma_kind=' + skind + ('/scalar' if not isinstance(sigma, list) else '/vector'))
+        self.bump('met:warmup=' + wsel)
         return case
 
     def gen_nuts(self, r, edge=False):
         d = r.choice([1, 2, 2, 3])
+        kind, layout = self._kind(r, LAYOUTS_1D)
+        if kind in SCALAR_KINDS:
+            d = 1
         spec = self._target_spec(r, d, TKINDS_NUTS)
         how = r.choice(['valid'] * 14 + ['neginf', 'posinf', 'nan'])
-        x0 = self._start(r, spec, d, how)
+        x0 = self._start(r, spec, d, how, kind)
         if x0 is None:
             how = 'valid'
-            x0 = self._start(r, spec, d, how) or [0.0] * d
+            x0 = self._start(r, spec, d, how, kind) or quantise([0.0] * d, kind)
         n_iter = r.choice([1, 2, 3, 4, 6, 8, 10])
         if edge:
             n_iter = r.choice([1, 2, 2, 3, 5])
             n_adapt = r.choice([None, n_iter - 1]) if n_iter <= 2 else n_iter - 1
         else:
-            n_adapt = r.choice([None, None, 0, n_iter, n_iter - 1, r.randint(0, n_iter + 2)])
-        case = dict(alg='nuts', d=d, target=spec, x0=x0, n_iter=n_iter, n_adapt=n_adapt,
+            n_adapt = r.choice([None, None, 0, 1, n_iter, n_iter - 1, r.randint(0, n_iter + 2)])
+        case = dict(alg='nuts', d=d, target=spec, x0=x0, x0_kind=kind, x0_layout=layout, n_iter=n_iter, n_adapt=n_adapt,
                     max_depth=r.choice([0, 1, 2, 2, 3, 3, 4]), stepsize=r.choice([None, 0.1, 0.3, 0.5, 1.5]),
                     target_prob=r.choice([0.6, 0.6, 0.8]), seed=r.choice([0, 1, r.randrange(2 ** 32), r.randrange(1000)]))
         self.bump('nuts:target=' + spec['kind'])
         self.bump('nuts:start=' + how)
-        self.bump('nuts:n_adapt=' + ('default' if n_adapt is None else 'n_iter-1' if n_adapt == n_iter - 1 else 'other'))
+        self.bump('nuts:n_adapt=' + ('default' if n_adapt is None else 'n_iter-1' if n_adapt == n_iter - 1 else
+                                     '0' if n_adapt == 0 else '1' if n_adapt == 1 else 'other'))
         self.bump('nuts:stepsize=' + ('search' if case['stepsize'] is None else 'given'))
         self.bump('nuts:max_depth=%d' % case['max_depth'])
+        self.bump('nuts:x0_kind=' + kind)
+        self.bump('nuts:x0_layout=' + layout)
         return case
 
     def generate(self):
@@ -290,18 +448,18 @@ class C09(PropCheck):
         return self.run_moments(case)
 
     def _params0(self, case):
-        x0 = np.array(case['x0'], dtype=float)
-        if case.get('shape2d'):
-            x0 = x0.reshape(1, -1)
-        return x0
+        layout = case.get('x0_layout') or ('row2d' if case.get('shape2d') else 'plain')
+        return build_start(case['x0'], case.get('x0_kind', 'f64'), layout)
 
     def run_met(self, case):
         from elfi.methods import mcmc
         f, _ = make_target(case['target'])
         wrapnp = case['ret'] == 'np'
-        sigma = case['sigma'] if not isinstance(case['sigma'], list) else np.array(case['sigma'], dtype=float)
-        if case.get('shape2d') and isinstance(case['sigma'], list):
-            sigma = sigma.reshape(1, -1)
+        kind = case.get('x0_kind', 'f64')
+        params0 = self._params0(case)                 # ONE object for all runs of this case: the sampler must not change it
+        sigma = build_sigma(case['sigma'], case.get('sigma_kind', 'f64'), np.shape(params0))
+        snap0 = (snapshot(params0), snapshot(sigma))
+        dtypes = []
 
         def call(rec):
             def rtarget(x):
@@ -310,11 +468,16 @@ class C09(PropCheck):
                     rec.ev.append(('target', np.array(x, dtype=float, copy=True).ravel(), float(v)))
                 return np.float64(v) if wrapnp else v
             try:
-                res = mcmc.metropolis(case['n'], self._params0(case), rtarget, sigma, warmup=case['warmup'], seed=case['seed'])
+                res = mcmc.metropolis(case['n'], params0, rtarget, sigma, warmup=case['warmup'], seed=case['seed'])
+                dtypes.append(str(getattr(res, 'dtype', type(res).__name__)))
                 return np.array(res, dtype=float)
             except ValueError as e:
                 if 'Bad initialization' in str(e):
                     return 'badinit'
+                raise
+            except (AttributeError, IndexError, TypeError):
+                if kind in OUT_OF_DOMAIN:
+                    return 'rejected'      # the entry point does not take this container
                 raise
 
         rec = Rec()
@@ -332,13 +495,15 @@ class C09(PropCheck):
         out['target'] = [[[fh(x) for x in e[1]], fh(e[2])] for e in rec.ev if e[0] == 'target']
         out['exp'] = [[fh(e[1]), fh(e[2])] for e in rec.ev if e[0] == 'exp']
         if isinstance(res, str):
-            out['res'] = 'badinit'
+            out['res'] = res
             out['chain'] = None
         else:
             out['res'] = 'chain'
             out['shape'] = list(res.shape)
+            out['start_shape'] = list(np.shape(params0))
+            out['out_dtype'] = dtypes[0]
             out['chain'] = [[fh(x) for x in np.asarray(row).ravel()] for row in res]
-        if case['rs'] == 'seed':
+        if case['rs'] == 'seed' and out['res'] != 'rejected':
             plain = call(None)
             again = call(None)
             same = (isinstance(plain, str) and plain == res) or (not isinstance(plain, str) and not isinstance(res, str)
@@ -350,17 +515,22 @@ class C09(PropCheck):
             # the stream an independent RandomState(seed) yields for the same calls
             rs = np.random.RandomState(case['seed'])
             ind = []
-            shp = self._params0(case).shape
+            shp = np.shape(params0)
             for _ in range(len(out['stream']) // 2):
                 ind.append(['n', [fh(x) for x in rs.randn(*shp).ravel()]])
                 ind.append(['u', fh(rs.rand())])
             out['stream_independent'] = (ind == out['stream'])
+        out['inputs_untouched'] = bool((snapshot(params0), snapshot(sigma)) == snap0)
         return out
 
     def run_nuts(self, case):
         from elfi.methods import mcmc
         f, g = make_target(case['target'])
-        x0 = np.array(case['x0'], dtype=float)
+        kind = case.get('x0_kind', 'f64')
+        params0 = build_start(case['x0'], kind, case.get('x0_layout', 'plain'))   # ONE object for all runs of this case
+        snap0 = snapshot(params0)
+        x0 = np.array(case['x0'], dtype=float)       # the binary64 values of the start: what the chain must start from
+        dtypes = []
         kw = dict(n_adapt=case['n_adapt'], target_prob=case['target_prob'], max_depth=case['max_depth'], seed=case['seed'],
                   stepsize=case['stepsize'])
 
@@ -371,7 +541,13 @@ class C09(PropCheck):
                     rec.ev.append(('target', np.array(x, dtype=float, copy=True).ravel(), float(v)))
                 return v
             try:
-                return np.array(mcmc.nuts(case['n_iter'], x0.copy(), rtarget, g, **kw), dtype=float)
+                res = mcmc.nuts(case['n_iter'], params0, rtarget, g, **kw)
+                dtypes.append(str(getattr(res, 'dtype', type(res).__name__)))
+                return np.array(res, dtype=float)
+            except (AttributeError, IndexError, TypeError) as e:
+                if kind in OUT_OF_DOMAIN:
+                    return 'rejected'      # the entry point does not take this container
+                return 'crash: %s: %s' % (type(e).__name__, e)
             except ValueError as e:
                 if 'Bad initialization' in str(e):
                     return 'badinit'
@@ -409,6 +585,7 @@ class C09(PropCheck):
             mcmc.np = old
             mcmc._build_tree_nuts = orig
         out = dict(alg='nuts')
+        out['inputs_untouched'] = bool(snapshot(params0) == snap0)
         if isinstance(res, str):
             out['res'] = res if not res.startswith('crash') else 'crash'
             out['msg'] = res
@@ -417,8 +594,11 @@ class C09(PropCheck):
             return out
         out['res'] = 'chain'
         out['shape'] = list(res.shape)
+        out['start_shape'] = list(np.shape(params0))
+        out['out_dtype'] = dtypes[0]
         plain = call(None)
         again = call(None)
+        out['inputs_untouched'] = bool(snapshot(params0) == snap0)
         out['plain_same'] = bool(not isinstance(plain, str) and plain.tobytes() == res.tobytes())
         out['deterministic'] = bool(not isinstance(plain, str) and not isinstance(again, str) and plain.tobytes() == again.tobytes())
         out['direct_good'] = [bool(good_value(f(row))) for row in res]
@@ -530,9 +710,16 @@ class C09(PropCheck):
                     bad.append(('moments', '%s on N(0,I): moments outside the wide tolerance' % k))
             return bad
         if out['alg'] == 'metropolis':
+            if out['res'] == 'rejected':
+                return bad
+            if not out['inputs_untouched']:
+                bad.append(('inputs_untouched', 'metropolis changed the caller\'s start / sigma object (a second run with the same '
+                                                'object and seed is then not the chain of the seed)'))
             if out['res'] == 'chain':
                 if out['shape'][0] != case['n']:
                     bad.append(('n_states', 'metropolis returned a chain whose length is not n_samples'))
+                if out['shape'][1:] != out['start_shape']:
+                    bad.append(('state_shape', 'the returned states do not have the shape of the starting point'))
                 k = case['n'] + case['warmup']
                 if out['events'] != 'T' + 'NTEU' * k:
                     bad.append(('call_order', 'calls on target/randn/exp/rand are not T(NTEU)^(n_samples+warmup)'))
@@ -548,9 +735,18 @@ class C09(PropCheck):
         if out['res'] == 'crash':
             bad.append(('returns_n_states', 'nuts raised instead of returning: ' + out['msg'].split(':')[1].strip()))
             return bad
+        if out['res'] == 'rejected':
+            return bad
+        if not out['inputs_untouched']:
+            bad.append(('inputs_untouched', 'nuts changed the caller\'s start object'))
         if out['res'] == 'chain':
             if out['shape'][0] != case['n_iter']:
                 bad.append(('n_states', 'nuts returned a chain whose length is not n_iter'))
+            if out['shape'][1:] != out['start_shape']:
+                bad.append(('state_shape', 'the returned states do not have the shape of the starting point'))
+            if out['out_dtype'] != 'float64':
+                bad.append(('float64_states', 'nuts returned %s states for a %s start: the leapfrog states are double precision'
+                            % (out['out_dtype'], case.get('x0_kind', 'f64'))))
             if not out['deterministic']:
                 bad.append(('deterministic', 'two nuts runs with the same seed differ'))
             if not out['plain_same']:
@@ -585,15 +781,20 @@ class C09(PropCheck):
     # -- Coq terms ---------------------------------------------------------------------------------
     def to_coq(self, case, out):
         if out['alg'] == 'metropolis':
+            if out['res'] == 'rejected':
+                return None
             d = case['d']
             sigma = case['sigma'] if isinstance(case['sigma'], list) else [case['sigma']] * d
             stream = clist(['DN %s' % cvec(e[1]) if e[0] == 'n' else 'DU %s' % cfh(e[1]) for e in out['stream']])
             impl = 'IBadInit' if out['res'] == 'badinit' else 'IChain %s' % clist([cvec(r) for r in out['chain']])
-            return ('CMet {| c_n := %s; c_warmup := %s; c_x0 := %s; c_sigma := %s; c_stream := %s; c_target := %s; c_exp := %s; c_impl := %s |}'
-                    % (cnat(case['n']), cnat(case['warmup']), clist([cfloat(x) for x in case['x0']]), clist([cfloat(x) for x in sigma]),
+            # start and scales in the caller's storage: integers as NI, binary16/32/64 values as NF (exact embedding)
+            return ('CMet {| c_n := %s; c_warmup := %s; c_start := %s; c_sigma_in := %s; c_stream := %s; c_target := %s; c_exp := %s; '
+                    'c_out_f64 := %s; c_impl := %s |}'
+                    % (cnat(case['n']), cnat(case['warmup']), clist([cnum(x) for x in case['x0']]), clist([cnum(x) for x in sigma]),
                        stream, clist(['(%s, %s)' % (cvec(k), cfh(v)) for k, v in out['target']]),
-                       clist(['(%s, %s)' % (cfh(k), cfh(v)) for k, v in out['exp']]), impl))
-        if out['alg'] != 'nuts' or out['res'] in ('initfail', 'crash'):
+                       clist(['(%s, %s)' % (cfh(k), cfh(v)) for k, v in out['exp']]),
+                       cbool(out['res'] != 'chain' or out['out_dtype'] == 'float64'), impl))
+        if out['alg'] != 'nuts' or out['res'] in ('initfail', 'crash', 'rejected'):
             return None
         if out['res'] == 'badinit':
             return ('CNuts {| nc_iter := %s; nc_maxdepth := %s; nc_ninit := 0; nc_p0 := 1%%N; nc_tinf := %s; nc_stream := []; nc_base := []; '
